@@ -33,7 +33,31 @@ type consoleCfg struct {
 }
 
 func (c consoleCfg) writer(out *bytes.Buffer) zerolog.ConsoleWriter {
-	return zerolog.ConsoleWriter{Out: out, NoColor: true, PartsOrder: c.partsOrder, PartsExclude: c.partsExclude, FieldsOrder: c.fieldsOrder, FieldsExclude: c.fieldsExcl, TimeFormat: c.timeFormat, TimeLocation: c.loc}
+	// every writer gets its own copies of the configuration slices (with spare capacity, as a caller's slice may
+	// have): a writer that edits them in place would otherwise also edit the reference's configuration
+	cp := func(s []string) []string {
+		if s == nil {
+			return nil
+		}
+		return append(make([]string, 0, len(s)+2), s...)
+	}
+	return zerolog.ConsoleWriter{Out: out, NoColor: true, PartsOrder: cp(c.partsOrder), PartsExclude: cp(c.partsExclude), FieldsOrder: cp(c.fieldsOrder), FieldsExclude: cp(c.fieldsExcl), TimeFormat: c.timeFormat, TimeLocation: c.loc}
+}
+
+// sameCfg: the writer's configuration slices still hold what the caller put there.
+func (c consoleCfg) sameCfg(w zerolog.ConsoleWriter) bool {
+	eq := func(a, b []string) bool {
+		if len(a) != len(b) {
+			return false
+		}
+		for i := range a {
+			if a[i] != b[i] {
+				return false
+			}
+		}
+		return true
+	}
+	return eq(w.PartsOrder, c.partsOrder) && eq(w.PartsExclude, c.partsExclude) && eq(w.FieldsOrder, c.fieldsOrder) && eq(w.FieldsExclude, c.fieldsExcl)
 }
 
 func needsQuoteRef(s string) bool {
@@ -477,6 +501,10 @@ func checkConsole(r *seq.Run, c consoleCfg, line []byte, root *jsonstrict.Node, 
 	}
 	if err1 != nil || err2 != nil || err1b != nil || n1 != len(line) || n2 != len(line) || n1b != len(line) {
 		r.Violation("", "console/result", fmt.Sprintf("Write returned (%d,%v) / (%d,%v), want (%d,nil)\n  %s", n1, err1, n2, err2, len(line), desc()), p.String())
+		return
+	}
+	if !c.sameCfg(w1) || !c.sameCfg(w2) {
+		r.Violation("", "console/config-modified", fmt.Sprintf("Write modified the caller's configuration slices: PartsOrder=%q PartsExclude=%q FieldsOrder=%q FieldsExclude=%q\n  %s", w1.PartsOrder, w1.PartsExclude, w1.FieldsOrder, w1.FieldsExclude, desc()), p.String())
 		return
 	}
 	if b1.String() != got+got {
